@@ -78,6 +78,23 @@ func (self *MaxJobsSemaphore) Acquire(metadata *Metadata, nonblocking bool) bool
 // Clear this semaphore and release all pending acquisitions.
 //
 // The semaphore can no longer be used after being cleared this way.
+// Reattach counts a job which an earlier mrp submitted and which is still
+// queued or running on the cluster.  Unlike Acquire it accepts a job which
+// is already running, and never waits.
+func (self *MaxJobsSemaphore) Reattach(metadata *Metadata) {
+	if metadata == nil {
+		return
+	}
+	if st, ok := metadata.getState(); ok && st != Queued && st != Waiting && st != Running {
+		return
+	}
+	self.lock.Lock()
+	defer self.lock.Unlock()
+	if self.Limit > 0 {
+		self.running[metadata] = struct{}{}
+	}
+}
+
 func (self *MaxJobsSemaphore) Clear() {
 	self.lock.Lock()
 	defer self.lock.Unlock()
